@@ -199,6 +199,9 @@ func decryptMsg(
 	}
 
 	checksumLength := ikesaKey.IntegInfo.GetOutputLength()
+	if len(encryptedPayload.EncryptedData) < checksumLength {
+		return nil, errors.Errorf("decryptMsg(): Encrypted payload is shorter than the checksum")
+	}
 	// Checksum
 	checksum := encryptedPayload.EncryptedData[len(encryptedPayload.EncryptedData)-checksumLength:]
 
